@@ -347,7 +347,9 @@ def run_job(job):
     if rec.get("max_records") is not None: kw["max_records"] = rec["max_records"]
     g.set_record_settings(**kw)
     gs0 = g.init(jax.random.PRNGKey(job.get("seed", 0)))
-    g.warmup(gs0, jit_step=bool(job.get("jit", False)))
+    del HOSTLOG[:]
+    g.warmup(gs0, jit_step=bool(job.get("jit", False)), verbose=bool(job.get("warmup_verbose", False)))
+    calls_warmup = host_calls(N)        # warm-up (without profiling) compiles and samples; it does not execute any step function
     episodes = []
     ra._verif_hook = Perturb(job["perturb"]) if job.get("perturb") else None
     sup = cfg["sup"]
@@ -392,7 +394,7 @@ def run_job(job):
                                  eps_counter=int(g._async_nodes[sup].eps) if hasattr(g._async_nodes[sup], "eps") else None))
     finally:
         ra._verif_hook = None
-    return dict(id=job["id"], node_phase=nph, conn_phase=cph, episodes=episodes)
+    return dict(id=job["id"], node_phase=nph, conn_phase=cph, episodes=episodes, calls_warmup=[c[:2] for c in calls_warmup][:40])
 
 
 def main():
